@@ -155,6 +155,7 @@ type Op struct {
 	Kind     string // recv msg deposit query
 	Pkt      Packet
 	Plan     []bool // recv/msg: fault plan (nil: none)
+	PanicAt  int    // recv: the PanicAt-th external call panics (0: none)
 	Lie      int64
 	Msg      Msg
 	Q        Query
@@ -495,6 +496,8 @@ type OpObs struct {
 	Trace    []Call
 	Natural  []bool
 	AppPanic bool
+	// ExtPanic: the injected panic of an external call happened (Op.PanicAt within the calls the packet makes)
+	ExtPanic bool
 	Entered  bool // recv: the orbiter middleware was reached (blockibc in front of it did not refuse the packet)
 	MsgOK    bool
 	MsgErr   string
@@ -633,7 +636,7 @@ func (w *W) RunOp(ctx sdk.Context, op Op) (o OpObs) {
 	o.Before = w.Snap(ctx)
 	switch op.Kind {
 	case "recv":
-		faulty := len(op.Plan) > 0 || op.Lie != 0 || w.InstOnly || op.InstOnly
+		faulty := len(op.Plan) > 0 || op.Lie != 0 || w.InstOnly || op.InstOnly || op.PanicAt > 0
 		if op.Ref && (!IsOrbiterFlow(op.Pkt) || op.Callback != "") {
 			o.RefDiff, o.RefRan = w.refCompare(ctx, op), true
 		}
@@ -647,15 +650,15 @@ func (w *W) RunOp(ctx sdk.Context, op Op) (o OpObs) {
 			o.Twin = w.twin(ctx, op)
 		}
 		var inst RecvObs
-		rec := w.In.With(op.Plan, op.Lie, func() { inst = w.recvOn(ctx, w.In.Stack, op.Pkt, false) })
+		rec := w.In.WithPanic(op.Plan, op.Lie, op.PanicAt, func() { inst = w.recvOn(ctx, w.In.Stack, op.Pkt, false) })
 		classify(op.Pkt, &inst, rec.Trace)
-		o.Trace, o.Natural, o.Entered = rec.Trace, rec.Natural, rec.Entered
+		o.Trace, o.Natural, o.Entered, o.ExtPanic = rec.Trace, rec.Natural, rec.Entered, rec.Injected
 		// a panic raised inside the wrapped ICS-20 application on a packet that is not the orbiter's
 		// happens identically without the middleware: outside the orbiter and outside the model
 		o.AppPanic = rec.InApp && !IsOrbiterFlow(op.Pkt)
 		if faulty {
 			// commit the instrumented execution
-			w.In.With(op.Plan, op.Lie, func() { o.Recv = w.recvOn(ctx, w.In.Stack, op.Pkt, true) })
+			w.In.WithPanic(op.Plan, op.Lie, op.PanicAt, func() { o.Recv = w.recvOn(ctx, w.In.Stack, op.Pkt, true) })
 			classify(op.Pkt, &o.Recv, rec.Trace)
 		} else {
 			o.Wired = w.recvOn(ctx, w.Wired, op.Pkt, true)
@@ -1040,6 +1043,10 @@ func OpCoq(o OpObs, memoTerm string) string {
 		}
 		if o.AppPanic {
 			return "OAppPanics"
+		}
+		if o.ExtPanic {
+			// the verdicts of the calls before the one that panicked; the model cuts its own trace after that one
+			return fmt.Sprintf("OExtPanics %s %s %s %d%%nat", PacketCoq(o.Op.Pkt, memoTerm), boolsCoq(verdicts[:len(verdicts)-1]), cq.ZI(o.Op.Lie), len(verdicts))
 		}
 		return fmt.Sprintf("ORecv %s %s %s", PacketCoq(o.Op.Pkt, memoTerm), boolsCoq(verdicts), cq.ZI(o.Op.Lie))
 	case "msg":
